@@ -30,6 +30,7 @@ struct lbuf *ex_lbuf(void) { return LB; }
 #define MAXF 16400
 static char in[MAXF], want[MAXF + 2];
 static int inlen, wantlen;
+static int shortmode;	/* the first write() of the target is cut short: 1 byte, half, all but one (it must be retried from where it stopped) */
 
 static void roundtrip(int beg_sym, int prevlen)
 {
@@ -75,6 +76,11 @@ static void roundtrip(int beg_sym, int prevlen)
 		memset(junk, '#', prevlen);
 		env_mkfile("out", junk, prevlen, 7);
 	}
+	if (shortmode) {
+		env_fault_n = ENV_NFAULT;
+		env_fault_kind[env_calls + 1] = ENV_SHORT;	/* the call after the open() */
+		env_fault_arg[env_calls + 1] = shortmode == 1 ? 1 : shortmode == 2 ? -1 : -2;
+	}
 	fd = env_open("out", O_WRONLY | O_CREAT, 0600);
 	symx_assert(fd >= 0, "open output");
 	symx_assert(lbuf_wr(LB, fd, beg, end) == 0, "write succeeds");
@@ -109,6 +115,7 @@ void harness(void)
 	chunk = symx_u8("chunk");		/* read() returns at most this many bytes at a time */
 	symx_assume(chunk >= 1 && chunk <= N + 1);
 	env_read_chunk = symx_conc(chunk);
+	shortmode = symx_conc(symx_u8("short") % 4);
 	prev = symx_u8("prev");			/* previous length of the target; N+4 = does not exist */
 	symx_assume(prev <= N + 4);
 	prev = symx_conc(prev);
@@ -142,6 +149,7 @@ void harness(void)
 		inlen--;			/* the last line lacks its newline */
 	{
 		int prev = symx_conc(symx_u8("prev") % 3);	/* target: absent, shorter, longer */
+		shortmode = symx_conc(symx_u8("short") & 1) ? 2 : 0;
 		roundtrip(RANGE, prev == 0 ? -1 : prev == 1 ? inlen / 2 : inlen + 5);
 	}
 #else
